@@ -178,15 +178,21 @@ def ser_code_rule(r):
 
 def ser_rules(rm, graph_json=None):
     """Serialise a RuleManager(-like). The *_from_code lists (≈10^4 rules each in the repo's defaults) are
-    restricted to rules whose line number occurs in the graph: both the real matchers and the model require
-    `node.line_no + 1 == rule.line_num` before anything else can make the rule match."""
-    lines = None
+    restricted to rules whose line number occurs in the graph and whose unit_path occurs in a unit path of the graph:
+    both the real matchers and the model require `node.line_no + 1 == rule.line_num` and `rule.unit_path in
+    unit_path` before anything else can make the rule match."""
+    lines = paths = None
     if graph_json is not None:
         lines = {n[6] + 1 for n in graph_json["nodes"]}
+        paths = [u[0] for u in graph_json["units"]]
     def code(lst):
         out = []
         for r in lst:
             if lines is not None and r.line_num not in lines:
+                continue
+            # every use of a from-code rule in the code as it is now (and in the model `current`) also requires
+            # `rule.unit_path in unit_path`; a real run that ignores it still differs from the model and is reported
+            if paths is not None and isinstance(r.unit_path, str) and not any(r.unit_path in up for up in paths):
                 continue
             out.append(ser_code_rule(r))
         return out
@@ -387,7 +393,8 @@ class Oracle:
                     res.add(("sym", self.nid(v)))
         elif k == c["K_STATE"]:
             for p, et, pos in g["in"][u]:
-                if et in (c["E_SYMSTATE"], c["E_INCL"]):
+                # since the repair C11/state-id-tagged-as-symbol only SYMBOL predecessors (Params.stateUpSymOnly)
+                if et in (c["E_SYMSTATE"], c["E_INCL"]) and self.kind(p) == c["K_SYMBOL"]:
                     res.add(("sym", self.nid(p)))
             for v, et, pos in g["out"][u]:
                 if self.kind(v) == c["K_STATE"] and et in (c["E_INCL"], c["E_IINCL"]) and not no_state_down:
@@ -806,7 +813,8 @@ def gen_rule(rng, kind, consts):
     ops_snk = ["call_stmt", "object_call_stmt", "object_call", "field_write", "record_write"]
     op = rng.choice(ops_src if kind == "source" else ops_snk)
     a, b = rng.choice(NAMES), rng.choice(NAMES)
-    name = rng.choice([a, a, f"{a}.{b}", f"{consts['KW_ANYNAME']}.{b}", f"{a}.{b}.{rng.choice(NAMES)}"])
+    name = rng.choice([a, a, f"{a}.{b}", f"{consts['KW_ANYNAME']}.{b}", f"{a}.{b}.{rng.choice(NAMES)}",
+                       a[1:] or a, a[:-1] or a, "x" + a, a + "0", f"{a[1:] or a}.{b}", f"{a}.{b[:-1] or b}"])
     if op == "record_write" and rng.random() < 0.7:
         name = None
     kw = consts
@@ -844,16 +852,89 @@ def gen_ruleset(rng, consts, g=None, loader=None, n_src=None, n_snk=None):
                      sink_code=[gen_code_rule(rng, "sink") for _ in range(rng.choice([0, 0, 1]))])
 
 
+def rule_to_dict(r, kind):
+    d = {}
+    for k in ("operation", "name", "key", "unit_path", "unit_name", "line_num", "vuln_type"):
+        v = getattr(r, k, None)
+        if v is not None:
+            d[k] = v
+    if kind == "source" and getattr(r, "attr", None) is not None:
+        d["attr"] = r.attr
+    if kind == "sink" and r.target is not None:
+        d["target"] = r.target
+    return d
+
+
+def groups_of(rules, kind):
+    """consecutive rules of the same lang form one YAML group (several groups = 'several files' for the loader)"""
+    groups = []
+    for r in rules:
+        lang = r.lang
+        if groups and groups[-1][0] == lang:
+            groups[-1][1].append(rule_to_dict(r, kind))
+        else:
+            groups.append([lang, [rule_to_dict(r, kind)]])
+    return groups
+
+
+class _NoCode:
+    all_sources_from_code = []
+    all_sinks_from_code = []
+
+
+def yaml_lang(lang):
+    return json.dumps(lang) if lang in ("", "%") or not lang.isalnum() else lang
+
+
+def load_via_rule_manager(src_groups, sink_groups, stub_rs=None):
+    """Writes the groups as source.yaml / sink.yaml and loads them with the REAL RuleManager (the from-code lists are
+    taken from `stub_rs`). Returns (rule manager, loader differences)."""
+    d = os.path.join(scratch_dir(), "synth_settings")
+    shutil.rmtree(d, ignore_errors=True)
+    write_settings(d, [(yaml_lang(l), rs) for l, rs in src_groups], [(yaml_lang(l), rs) for l, rs in sink_groups])
+    rm = fast_rule_manager(d, _NoCode, 10 ** 9)
+    if stub_rs is not None:
+        rm.all_sources_from_code = list(stub_rs.all_sources_from_code)
+        rm.all_sinks_from_code = list(stub_rs.all_sinks_from_code)
+    return rm, loader_differences(d, rm, "synthetic")
+
+
+def yaml_safe_ruleset(rs):
+    """can the rule set be written as YAML and read back unchanged? (scalar targets, '' and None are all fine; only
+    attributes the generator never puts into files are excluded)"""
+    return all(isinstance(r.name, (str, type(None))) for r in rs.all_sources + rs.all_sinks)
+
+
 def extend_ruleset(rng, rs, consts, g=None, loader=None):
     """R ⊆ R' with order preserved (for monotonicity)."""
-    def mk(kind):
-        if g is not None and rng.random() < 0.75:
+    def mk(kind, lst):
+        r = rng.random()
+        if lst and r < 0.45:
+            # a rule that shares operation / name / key with an existing one but differs in target or location
+            import copy
+            nr = copy.copy(rng.choice(lst))
+            what = rng.choice(["target", "unit_name", "unit_path", "line_num", "lang", "affix"])
+            kw = consts
+            if what == "target" and kind == "sink":
+                nr.target = rng.choice([[kw["KW_ARG0"]], [kw["KW_ARG1"]], [kw["KW_ARG2"]], [kw["KW_RECEIVER"]], [kw["KW_TARGET"]], None, []])
+            elif what == "unit_name":
+                nr.unit_name = rng.choice(["main.py", "util.py", "legacy_client.py", None])
+            elif what == "unit_path":
+                nr.unit_path = rng.choice(["/w/app/main.py", "/w/app/other.py", None])
+            elif what == "line_num":
+                nr.line_num = rng.choice([1, 2, 3, 9999, None])
+            elif what == "lang":
+                nr.lang = rng.choice(["python", "java", "%"])
+            elif isinstance(nr.name, str) and nr.name:
+                nr.name = rng.choice([nr.name[1:] or nr.name, nr.name[:-1] or nr.name, "x" + nr.name])
+            return nr
+        if g is not None and r < 0.85:
             return targeted_rule(rng, kind, g, loader, consts)
         return gen_rule(rng, kind, consts)
     def ext(lst, kind):
         out = list(lst)
         for _ in range(rng.randint(1, 2)):
-            out.insert(rng.randint(0, len(out)), mk(kind))
+            out.insert(rng.randint(0, len(out)), mk(kind, lst))
         return out
     return StubRules(sources=ext(rs.all_sources, "source"), sinks=ext(rs.all_sinks, "sink"),
                      src_code=list(rs.all_sources_from_code), sink_code=list(rs.all_sinks_from_code))
@@ -877,14 +958,58 @@ def yaml_rules(groups):
             first = True
             for k, v in r.items():
                 if isinstance(v, list):
-                    val = "[" + ", ".join(x if x.startswith("\\") else json.dumps(x) for x in v) + "]"
+                    val = "[" + ", ".join(json.dumps(x) for x in v) + "]"
                 elif isinstance(v, int):
                     val = str(v)
                 else:
-                    val = json.dumps(v) if (k in ("key",) or v == "" or any(ch in v for ch in ":#\"'")) else v
+                    val = json.dumps(v)          # a JSON string is a valid (double-quoted) YAML scalar
                 out.append(("    - " if first else "      ") + f"{k}: {val}")
                 first = False
     return "\n".join(out) + "\n"
+
+
+def decoy_rules(n_src, n_sink, n_param):
+    """Rules whose names are proper prefixes / suffixes / extensions of the names the programs use, naming OTHER
+    argument positions.  Under exact name matching (what every matcher except the field_write one does) they apply
+    to nothing, so a configuration with them must report exactly what it reports without them."""
+    src, snk = [], []
+    for i in range(n_src):
+        src += [{"operation": "call_stmt", "name": f"rc{i}"}, {"operation": "call_stmt", "name": f"xsrc{i}"}]
+    src += [{"operation": "call_stmt", "name": "src"}, {"operation": "object_call_stmt", "name": "eq.get"},
+            {"operation": "object_call_stmt", "name": "req.ge"}, {"operation": "object_call_stmt", "name": "get"},
+            {"operation": "parameter_decl", "name": "preq"}, {"operation": "parameter_decl", "name": "req0"},
+            {"operation": "field_read", "name": "cfg.secre"}, {"operation": "field_read", "name": "fg.secret"},
+            {"operation": "field_read", "name": "secret"}]
+    for i in range(n_sink):
+        snk += [{"operation": "call_stmt", "name": f"ink{i}", "target": ["\\%arg1"], "vuln_type": "decoy"},
+                {"operation": "call_stmt", "name": f"xsink{i}", "target": ["\\%arg1"], "vuln_type": "decoy"},
+                {"operation": "call_stmt", "name": f"a.sink{i}", "target": ["\\%arg1"], "vuln_type": "decoy"}]
+    snk += [{"operation": "call_stmt", "name": "sink", "target": ["\\%arg1"], "vuln_type": "decoy"},
+            {"operation": "call_stmt", "name": "k0", "target": ["\\%arg1"], "vuln_type": "decoy"},
+            {"operation": "object_call_stmt", "name": "b.execute", "target": ["\\%arg1"], "vuln_type": "decoy"},
+            {"operation": "object_call_stmt", "name": "db.execut", "target": ["\\%arg1"], "vuln_type": "decoy"},
+            {"operation": "record_write", "key": "\"dat\"", "target": [], "vuln_type": "decoy"}]
+    return src, snk
+
+
+def dup_rules(src, snk):
+    """For every rule a second rule with the SAME operation / name / key but another target and a location
+    restriction that holds nowhere in the programs.  Appending them must not change anything."""
+    dsrc, dsnk = [], []
+    for i, r in enumerate(src):
+        d = dict(r)
+        d.update({"line_num": 9999} if i % 2 == 0 else {"unit_name": "legacy_client.py"})
+        dsrc.append(d)
+    for i, r in enumerate(snk):
+        d = dict(r)
+        if r.get("target") == ["\\%arg0"]:
+            d["target"] = ["\\%arg1"]
+        elif "target" in r:
+            d["target"] = ["\\%arg0"]
+        d.update({"unit_name": "legacy_client.py"} if i % 2 == 0 else {"line_num": 9999})
+        d["vuln_type"] = "dup"
+        dsnk.append(d)
+    return dsrc, dsnk
 
 
 def base_rules(n_src, n_sink, n_param):
@@ -905,6 +1030,26 @@ def write_settings(d, src_groups, sink_groups):
     open(os.path.join(d, "source.yaml"), "w").write(yaml_rules(src_groups))
     open(os.path.join(d, "sink.yaml"), "w").write(yaml_rules(sink_groups))
     shutil.copy(os.path.join(common.REPO, "default_settings", "propagation.yaml"), os.path.join(d, "propagation.yaml"))
+
+
+def loader_differences(settings_dir, rm, cfg_name):
+    """Specification of RuleManager.init for source.yaml / sink.yaml: every rule entry of every group becomes exactly
+    one Rule, in file order, carrying the group's lang and the entry's fields.  Returns the differences."""
+    import yaml
+    diffs = []
+    for fname, lst, kind in (("source.yaml", rm.all_sources, "source"), ("sink.yaml", rm.all_sinks, "sink")):
+        data = yaml.safe_load(open(os.path.join(settings_dir, fname))) or []
+        want = []
+        for grp in data:
+            for r in (grp.get("rules") or []):
+                want.append((grp.get("lang"), r.get("name"), r.get("operation"), r.get("target"), r.get("unit_path"),
+                             r.get("unit_name"), r.get("line_num"), r.get("key")))
+        got = [(r.lang, r.name, r.operation, r.target, r.unit_path, r.unit_name, r.line_num, r.key) for r in lst]
+        if want != got:
+            missing = [w for w in want if w not in got]
+            diffs.append({"config": cfg_name, "file": fname, "entries_in_yaml": len(want), "rules_loaded": len(got),
+                          "first_missing_or_changed": missing[:2], "yaml": open(os.path.join(settings_dir, fname)).read()[:3000]})
+    return diffs
 
 
 def fast_rule_manager(settings_dir, code_from, max_line):
@@ -966,8 +1111,10 @@ def packed_worker(job):
         t2 = time.time()
         max_line = max(t.count("\n") for t in job["files"].values()) + 2
         rms = {}
+        out["loader"] = []
         for cfg in job["configs"]:
             rms[cfg["name"]] = fast_rule_manager(cfg["dir"], ta_real.rule_manager, max_line)
+            out["loader"] += loader_differences(cfg["dir"], rms[cfg["name"]], cfg["name"])
         for mid in l.loader.get_all_method_ids():
             sfg = l.loader.get_global_sfg_by_entry_point(mid)
             if not sfg:
@@ -1168,14 +1315,22 @@ def flow_pairs(real):
 # --------------------------------------------------------------------------------------------------
 
 SIZES = {
-    "quick": {"synth": 4000, "mono": 1200, "jobs": 4, "cases_per_job": 40, "matcher_cases": 600},
-    "thorough": {"synth": 60000, "mono": 15000, "jobs": 28, "cases_per_job": 60, "matcher_cases": 6000},
+    "quick": {"synth": 4000, "mono": 1200, "via_loader": 400, "jobs": 4, "cases_per_job": 40, "matcher_cases": 600},
+    "thorough": {"synth": 60000, "mono": 15000, "via_loader": 4000, "jobs": 28, "cases_per_job": 60, "matcher_cases": 6000},
 }
+
+
+_SCRATCH_REGISTERED = set()
 
 
 def scratch_dir():
     d = os.path.join(common.SCRATCH_ROOT, f"lv-{os.getpid()}")
     os.makedirs(d, exist_ok=True)
+    if os.getpid() not in _SCRATCH_REGISTERED:
+        # whatever path a run ends on, its scratch directory goes away with the process that created it
+        import atexit
+        _SCRATCH_REGISTERED.add(os.getpid())
+        atexit.register(lambda d=d, pid=os.getpid(): os.getpid() == pid and shutil.rmtree(d, ignore_errors=True))
     return d
 
 
@@ -1230,15 +1385,36 @@ def synth_phase(ctx, params, prob, tier):
         g, loader = gen_synth_graph(rng, consts)
         rs = gen_ruleset(rng, consts, g, loader)
         gj, nodes = ser_graph(g, loader)
-        rj = ser_rules(rs, gj)
-        real = real_engine(make_ta(loader, rs), g, nodes)
-        case = {"graph": gj, "rules": rj, "real": real, "origin": f"synthetic #{i}"}
+        via = i < sz.get("via_loader", 0) and yaml_safe_ruleset(rs)
+        yaml_groups = None
+        if via:
+            # YAML files -> REAL RuleManager.init -> Rule objects: the loading path is part of what is compared
+            yaml_groups = [groups_of(rs.all_sources, "source"), groups_of(rs.all_sinks, "sink")]
+            rs_l, ld = load_via_rule_manager(yaml_groups[0], yaml_groups[1], rs)
+            for dff in ld[:1]:
+                prob.corr.append({"origin": f"synthetic #{i} RuleManager.init", "difference": dict(dff, what="the loaded rule list is not the list of rule entries of the YAML file")})
+            rs_used = rs_l
+        else:
+            rs_used = rs
+        rj = ser_rules(rs_used, gj)
+        real = real_engine(make_ta(loader, rs_used), g, nodes)
+        case = {"graph": gj, "rules": rj, "real": real, "origin": f"synthetic #{i}" + (" (rules loaded from YAML)" if via else ""), "yaml": yaml_groups}
         cases.append(case)
         if i < sz["mono"]:
             rs2 = extend_ruleset(rng, rs, consts, g, loader)
-            rj2 = ser_rules(rs2, gj)
-            real2 = real_engine(make_ta(loader, rs2), g, nodes)
-            cases.append({"graph": gj, "rules": rj2, "real": real2, "origin": f"synthetic #{i} (extended rules)", "extends": case})
+            yaml2 = None
+            if via and yaml_safe_ruleset(rs2):
+                yaml2 = [groups_of(rs2.all_sources, "source"), groups_of(rs2.all_sinks, "sink")]
+                rs2_used, ld = load_via_rule_manager(yaml2[0], yaml2[1], rs2)
+                for dff in ld[:1]:
+                    prob.corr.append({"origin": f"synthetic #{i} (extended rules) RuleManager.init", "difference": dict(dff, what="the loaded rule list is not the list of rule entries of the YAML file")})
+            elif via:
+                continue
+            else:
+                rs2_used = rs2
+            rj2 = ser_rules(rs2_used, gj)
+            real2 = real_engine(make_ta(loader, rs2_used), g, nodes)
+            cases.append({"graph": gj, "rules": rj2, "real": real2, "origin": f"synthetic #{i} (extended rules)", "extends": case, "yaml": yaml2})
     models = model_eval(cases, params)
     stats = {"graphs": sz["synth"], "rule_sets": len(cases), "with_sources": 0, "with_sinks": 0, "with_flows": 0,
              "flows": 0, "typed": 0, "untyped": 0, "nonterminating": 0, "none_source_crash": 0, "mono_pairs": 0,
@@ -1291,6 +1467,7 @@ def synth_phase(ctx, params, prob, tier):
                 if not pb <= pe:
                     prob.c11.append({"origin": c["origin"], "kind": "mono", "graph": c["graph"],
                                      "rules": c["extends"]["rules"], "rules_ext": c["rules"],
+                                     "yaml": c["extends"].get("yaml"), "yaml_ext": c.get("yaml"),
                                      "problem": {"what": "adding rules removed a reported (source, sink) pair",
                                                  "lost": sorted(pb - pe)}})
     stats["distinct_with_flows"] = len(stats.pop("distinct"))
@@ -1309,13 +1486,24 @@ def hashlib_key(obj):
 def job_configs(d, n_src, n_sink, n_param, rng, case_names):
     """Writes the settings directories of one packed run. Returns [{name, dir, active}] where `active` tells the
     oracle which sites have an applicable rule: function (kind, name, file, line) -> bool."""
-    src, snk = base_rules(n_src, n_sink, n_param)
+    src0, snk0 = base_rules(n_src, n_sink, n_param)
+    dsrc_, dsnk_ = decoy_rules(n_src, n_sink, n_param)
+    # the decoys are part of EVERY configuration (interleaved before and after the real rules)
+    src = dsrc_[: len(dsrc_) // 2] + src0 + dsrc_[len(dsrc_) // 2:]
+    snk = dsnk_[: len(dsnk_) // 2] + snk0 + dsnk_[len(dsnk_) // 2:]
     cfgs = []
-    def add(name, sg, kg, active, subset_of=None):
+    def add(name, sg, kg, active, subset_of=None, equals=None):
         cd = os.path.join(d, "cfg_" + name)
         write_settings(cd, sg, kg)
-        cfgs.append({"name": name, "dir": cd, "active": active, "subset_of": subset_of, "groups": [sg, kg]})
+        cfgs.append({"name": name, "dir": cd, "active": active, "subset_of": subset_of, "equals": equals, "groups": [sg, kg]})
     add("base", [("python", src)], [("python", snk)], {"src": "all", "sink": "all"})
+    # the real rules alone (no decoys): must report exactly what base reports
+    add("plain", [("python", src0)], [("python", snk0)], {"src": "all", "sink": "all"}, equals="base")
+    # same-name rules with another target / a location restriction that holds nowhere, appended as a second group ...
+    dsrc, dsnk = dup_rules(src0, snk0)
+    add("dup", [("python", src), ("python", dsrc)], [("python", snk), ("python", dsnk)], {"src": "all", "sink": "all"}, equals="base")
+    # ... and placed BEFORE the real rules
+    add("dup_rev", [("python", dsrc), ("python", src)], [("python", dsnk), ("python", snk)], {"src": "all", "sink": "all"}, equals="base")
     add("java", [("java", src)], [("java", snk)], {"src": "none", "sink": "none"}, "base")
     add("nosrc", [], [("python", snk)], {"src": "none", "sink": "all"}, "base")
     add("nosink", [("python", src)], [], {"src": "all", "sink": "none"}, "base")
@@ -1327,14 +1515,14 @@ def job_configs(d, n_src, n_sink, n_param, rng, case_names):
         {"src": {src[i].get("name") for i in keep_s}, "sink": {snk[i].get("name", "data") for i in keep_k}}, "base")
     # every sink rule restricted to some files (unit_name): sinks of the other files must disappear
     only = set(rng.sample(case_names, max(1, min(6, len(case_names) // 3))))
-    snk_u = [dict(r, unit_name=u) for u in sorted(only) for r in snk]
+    snk_u = dsnk_ + [dict(r, unit_name=u) for u in sorted(only) for r in snk0]
     add("unit", [("python", src)], [("python", snk_u)], {"src": "all", "sink": "all", "sink_unit": only}, "base")
     # every source rule restricted to one line (line_num): sources on other lines must disappear
     lines = {r.get("name"): rng.randint(3, 14) for r in src}
     src_l = [dict(r, line_num=lines[r.get("name")]) for r in src]
     add("line", [("python", src_l)], [("python", snk)], {"src": "all", "sink": "all", "src_line": lines}, "base")
     # the any-language marker and a group without restriction behave like the base configuration
-    add("anylang", [("'%'", src)], [("'%'", snk)], {"src": "all", "sink": "all"})
+    add("anylang", [("'%'", src)], [("'%'", snk)], {"src": "all", "sink": "all"}, equals="base")
     return cfgs
 
 
@@ -1461,13 +1649,66 @@ def reaching_def_lost(case, rend, gj, consts, s_site, k_site, names):
         if dp not in rend.stmt_lines or up not in rend.stmt_lines:
             continue
         xn = md.var(scope, x)
-        if xn not in reach_src:
-            continue
-        rx = md.reach_from(xn)
-        if not any(a in rx for a in sink_args):
+        if not tp.on_flow_path(md, xn, reach_src, sink_args):
             continue
         (df, dl), (uf, ul) = rend.stmt_lines[dp], rend.stmt_lines[up]
         if def_use_edge_missing(gj, consts, x, names[df], dl, names[uf], ul):
+            return True
+    return False
+
+
+def arg_value_not_passed(gj, consts, x, def_file, def_line, use_file, use_line):
+    """In the SFG: a call statement C on use_line uses, at one argument position, the symbol node S named x that a
+    statement on def_line defines AND another node S' of the same variable (another reaching definition); the call
+    was expanded for S' (S' has a SYMBOL_FLOW edge to a parameter node P in the call-site context of C), but S has
+    no SYMBOL_FLOW edge into that context and P holds none of S's states: the callee never saw the value of S."""
+    N = gj["nodes"]
+    K_STMT, K_SYM, K_ST = consts["K_STMT"], consts["K_SYMBOL"], consts["K_STATE"]
+    flow = (consts["E_FLOW"], consts["E_IFLOW"])
+    for cnode, n in enumerate(N):
+        if n[0] != K_STMT or n[5] != "call_stmt" or n[6] + 1 != use_line or \
+                os.path.basename(gj["units"][n[14]][0]) != use_file:
+            continue
+        used = [(p_, pos) for p_, et, pos in gj["in"][cnode] if et == consts["E_USED"] and N[p_][0] == K_SYM and pos >= 1]
+        for s_, pos in used:
+            m = N[s_]
+            if m[5] != x or os.path.basename(gj["units"][m[14]][0]) != def_file:
+                continue
+            if not any(N[u][0] == K_STMT and et == consts["E_DEFINED"] and N[u][6] + 1 == def_line for u, et, _ in gj["in"][s_]):
+                continue
+            if any(et in flow and N[v][4] == n[1] for v, et, _ in gj["out"][s_]):
+                continue                                     # the value of S was passed
+            my_states = {N[v][3] for v, et, _ in gj["out"][s_] if et == consts["E_SYMSTATE"] and N[v][0] == K_ST}
+            for s2, pos2 in used:
+                if s2 == s_ or pos2 != pos or N[s2][3] != m[3]:
+                    continue
+                for pnode, et, _ in gj["out"][s2]:
+                    if et in flow and N[pnode][0] == K_SYM and N[pnode][4] == n[1]:
+                        held = {N[v][3] for v, et2, _ in gj["out"][pnode] if et2 == consts["E_SYMSTATE"]}
+                        if my_states and not (my_states & held):
+                            return True
+    return False
+
+
+def join_arg_state_lost(case, rend, gj, consts, s_site, k_site, names):
+    """C08/join-revisit seen from C10: the program (AST) has a definition D of X that reaches the call U = f(.. X ..)
+    on every execution passing D (taint_progs.must_reach_pairs), X lies on a dependence path of the missed flow, and
+    the SFG shows that the call was expanded with the value of another reaching definition only
+    (arg_value_not_passed)."""
+    import taint_progs as tp
+    md = tp.MayDep(case, rend.sites, call_propagates=True)
+    src_nodes = [n for n, srcs in md.src_of.items() if s_site in srcs]
+    sink_args = [arg for (site, arg, designated) in md.sink_args if site == k_site and designated and arg is not None]
+    reach_src = set()
+    for sn in src_nodes:
+        reach_src |= md.reach_from(sn)
+    for (scope, x, dp, up) in tp.must_reach_pairs(case):
+        if dp not in rend.stmt_lines or up not in rend.stmt_lines:
+            continue
+        if not tp.on_flow_path(md, md.var(scope, x), reach_src, sink_args):
+            continue
+        (df, dl), (uf, ul) = rend.stmt_lines[dp], rend.stmt_lines[up]
+        if arg_value_not_passed(gj, consts, x, names[df], dl, names[uf], ul):
             return True
     return False
 
@@ -1557,10 +1798,10 @@ def loop_def_lost(case, rend, gj, consts, s_site, k_site, names):
         fname = names[fidx]
         for x in vs:
             xn = md.var(scope, x)
-            if not any(xn in md.reach_from(sn) for sn in src_nodes):
-                continue
-            rx = md.reach_from(xn)
-            if not any(a in rx for a in sink_args):
+            reach_src_ = set()
+            for sn in src_nodes:
+                reach_src_ |= md.reach_from(sn)
+            if not tp.on_flow_path(md, xn, reach_src_, sink_args):
                 continue
             if not read_after(case, rend, scope, x, fidx, l2):
                 continue
@@ -1600,7 +1841,98 @@ def in_while(path, case):
     return loops
 
 
-def classify_missed(case, rend, gj, consts, s_site, k_site, names):
+def call_site_budget_exhausted(entry_case, params, fname, src_line):
+    """Signature of C10/call-site-budget-per-entry in the SFG and the REAL tag map of the source on `src_line`: a
+    symbol node A carries the tag and was dequeued, is used by a call statement, has NO SYMBOL_FLOW edge, while at
+    least TWO other nodes of the same (def_stmt_id, node_id) — other passes over the helper — have a SYMBOL_FLOW edge into a
+    symbol defined by a parameter_decl: the call site was expanded for two contexts (the whole budget:
+    MAX_ANALYSIS_ROUND_FOR_CALL_SITE = 2, counter keyed without the calling context) and not for the one that
+    carries the taint."""
+    gj, real = entry_case["graph"], entry_case["real"]
+    N = gj["nodes"]
+    c = params["consts"]
+    K_STMT, K_SYM = c["K_STMT"], c["K_SYMBOL"]
+    line = {n[1]: n[6] + 1 for n in N if n[0] == K_STMT}
+    def is_param(v):
+        return N[v][0] == K_SYM and any(N[u][0] == K_STMT and et == c["E_DEFINED"] and N[u][5] == "parameter_decl" for u, et, _ in gj["in"][v])
+    for p in real["props"]:
+        sn = N[p["src"]]
+        if line.get(sn[1]) != src_line or os.path.basename(gj["units"][sn[14]][0]) != fname:
+            continue
+        tagged = {int(k) for k in p["sym"]}
+        processed = set(p["processed"])
+        for a, n in enumerate(N):
+            if n[0] != K_SYM or n[3] not in tagged or a not in processed:
+                continue
+            if any(et in (c["E_FLOW"], c["E_IFLOW"]) for _, et, _ in gj["out"][a]):
+                continue
+            if not any(et == c["E_USED"] and N[v][0] == K_STMT and N[v][5] == "call_stmt" for v, et, _ in gj["out"][a]):
+                continue
+            sib = [b for b, m in enumerate(N) if b != a and m[0] == K_SYM and (m[1], m[3]) == (n[1], n[3]) and
+                   (m[2], m[4]) != (n[2], n[4]) and m[4] != -1]
+            ctx_ok = {N[b][4] for b in sib if any(et in (c["E_FLOW"], c["E_IFLOW"]) and is_param(v) for v, et, _ in gj["out"][b])}
+            # passes over the helper (nodes with their own index) in contexts in which the call site WAS expanded
+            if len({(N[b][2], N[b][4]) for b in sib if N[b][4] in ctx_ok}) >= 2:
+                return True
+    return False
+
+
+def call_site_budget_exhausted_ast(case, rend, entry_case, params, names, fname, src_line):
+    """The same signature with the callee taken from the program: a symbol node A that carries the tag and was dequeued
+    is used by a call statement of a function F of the program; a pass is EXPANDED when a parameter symbol of F (defined
+    by a parameter_decl on F's def line) has a SYMBOL_FLOW in-edge from the argument node or from a node that also
+    flows into the argument node.  Known iff A's pass is not expanded while at least TWO other nodes of the same
+    (def_stmt_id, node_id) are."""
+    gj, real = entry_case["graph"], entry_case["real"]
+    N = gj["nodes"]
+    c = params["consts"]
+    K_STMT, K_SYM = c["K_STMT"], c["K_SYMBOL"]
+    FL = (c["E_FLOW"], c["E_IFLOW"])
+    line = {n[1]: n[6] + 1 for n in N if n[0] == K_STMT}
+    def_line = {f.name: rend.stmt_lines.get(("def", fi)) for fi, f in enumerate(case.funcs)}
+    def params_of(fn_name):
+        fl = def_line.get(fn_name)
+        if not fl:
+            return set()
+        out = set()
+        for v, n in enumerate(N):
+            if n[0] == K_SYM and os.path.basename(gj["units"][n[14]][0]) == names[fl[0]] and \
+                    any(N[u][0] == K_STMT and et == c["E_DEFINED"] and N[u][5] == "parameter_decl" and N[u][6] + 1 == fl[1]
+                        for u, et, _ in gj["in"][v]):
+                out.add(v)
+        return out
+    def feeds(b, pf):
+        if any(et in FL and v in pf for v, et, _ in gj["out"][b]):
+            return True
+        for x, et, _ in gj["in"][b]:
+            if et in FL and any(et2 in FL and v in pf for v, et2, _ in gj["out"][x]):
+                return True
+        return False
+    for p in real["props"]:
+        sn = N[p["src"]]
+        if line.get(sn[1]) != src_line or os.path.basename(gj["units"][sn[14]][0]) != fname:
+            continue
+        tagged = {int(k) for k in p["sym"]}
+        processed = set(p["processed"])
+        for a, n in enumerate(N):
+            if n[0] != K_SYM or n[3] not in tagged or a not in processed:
+                continue
+            for cs, et, _ in gj["out"][a]:
+                if et != c["E_USED"] or N[cs][0] != K_STMT or N[cs][5] != "call_stmt" or N[cs][11] not in def_line:
+                    continue
+                pf = params_of(N[cs][11])
+                if not pf or feeds(a, pf):
+                    continue
+                sib = [b for b, m in enumerate(N) if b != a and m[0] == K_SYM and (m[1], m[3]) == (n[1], n[3]) and m[4] != -1]
+                ctx_ok = {N[b][4] for b in sib if feeds(b, pf)}
+                # passes over the helper (nodes with their own index) in contexts in which the call site WAS expanded:
+                # two passes use up the budget (the counter is bumped twice per pass, `> 2` blocks the third)
+                if len({(N[b][2], N[b][4]) for b in sib if N[b][4] in ctx_ok}) >= 2:
+                    return True
+    return False
+
+
+def classify_missed(case, rend, gj, consts, s_site, k_site, names, entry_case=None, params=None):
     """-> known finding id for a missed ground-truth flow, or None. `names`: file index -> file name."""
     import taint_progs as tp
     src_info = {(f, l): (kind, nm) for f, l, kind, nm in rend.src_sites}
@@ -1625,6 +1957,12 @@ def classify_missed(case, rend, gj, consts, s_site, k_site, names):
         return "C10/loop-def-lost"
     if gj is not None and reaching_def_lost(case, rend, gj, consts, s_site, k_site, names):
         return "C10/reaching-def-lost"
+    if gj is not None and join_arg_state_lost(case, rend, gj, consts, s_site, k_site, names):
+        return "C10/join-arg-state-lost"
+    if entry_case is not None and params is not None and \
+            (call_site_budget_exhausted(entry_case, params, names[s_site[0]], s_site[1]) or
+             call_site_budget_exhausted_ast(case, rend, entry_case, params, names, names[s_site[0]], s_site[1])):
+        return "C10/call-site-budget-per-entry"
     return None
 
 
@@ -1654,7 +1992,7 @@ def classify_spurious(case, rend, entry_case, params, s_site, k_site, names, act
     if not act_pair(s_site, k_site):
         return None
     md = tp.MayDep(case, rend.sites, call_propagates=True)
-    if (s_site, k_site) not in tp.co_descendant_pairs(md):
+    if (s_site, k_site) not in tp.co_descendant_pairs(md) and (s_site, k_site) not in tp.other_value_pairs(case, rend.sites):
         return None
     inv = {}
     for sid, (fn, ln) in entry_case["stmt_site"].items():
@@ -1743,6 +2081,9 @@ def packed_phase(ctx, params, prob, tier, side, extra_jobs=()):
             all_cases.append((job, c))
         job["_by"] = by
         job["_phase4"] = res["phase4"]
+        for dff in res.get("loader", [])[:2]:
+            prob.corr.append({"origin": f"{job['name']} RuleManager.init on configuration {dff['config']!r} ({dff['file']})",
+                              "difference": dict(dff, what="the loaded rule list is not the list of rule entries of the YAML file (one Rule per entry, in order)")})
     models = model_eval([c for _, c in all_cases], params) if all_cases else []
     seen_graph = set()
     for (job, c), m in zip(all_cases, models):
@@ -1836,7 +2177,7 @@ def packed_phase(ctx, params, prob, tier, side, extra_jobs=()):
                         stats["kind_pairs_reported"][kp] = stats["kind_pairs_reported"].get(kp, 0) + 1
                         continue
                     stats["missed"] += 1
-                    fid = classify_missed(case, rend, gj, consts, s, k, names)
+                    fid = classify_missed(case, rend, gj, consts, s, k, names, entry.get(cname), params)
                     if fid:
                         stats["missed_known"][fid] = stats["missed_known"].get(fid, 0) + 1
                         prob.known.append((fid, f"flow {ns_} -> {nk_} not reported ({payload['origin']})"))
@@ -1877,10 +2218,22 @@ def packed_phase(ctx, params, prob, tier, side, extra_jobs=()):
                 if cfg.get("subset_of") and cfg["subset_of"] in entry and cname in entry:
                     if not rep <= rep_base:
                         prob.c11.append(dict(payload, problem={"what": f"configuration {cname!r} (a restriction of 'base') reports pairs that 'base' does not",
-                                                              "pair": [list(x) for x in sorted(rep - rep_base)[0]], "expect": "spurious"}))
-                if cname == "anylang" and rep != rep_base:
-                    prob.c10.append(dict(payload, problem={"what": "rules under the any-language marker report other pairs than the same rules under 'python'",
-                                                          "only_base": sorted(rep_base - rep), "only_anylang": sorted(rep - rep_base), "expect": "differs"}))
+                                                              "pair": [list(x) for x in sorted(rep - rep_base)[0]], "expect": "spurious", "compare": "base"}))
+                if cfg.get("equals") and cfg["equals"] in entry and cname in entry and rep != rep_base:
+                    why = {"anylang": "rules under the any-language marker report other pairs than the same rules under 'python'",
+                           "plain": "rules whose names are only prefixes / suffixes / extensions of the names in the program change the report",
+                           "dup": "appending same-name rules with another target and a location restriction that holds nowhere changes the report",
+                           "dup_rev": "same-name rules with another target and a location restriction that holds nowhere, placed before the real rules, change the report"}[cname]
+                    if rep_base - rep:
+                        # (for 'plain' the roles are swapped: base = plain + decoys)
+                        side_list = prob.c11
+                        lost = sorted(rep_base - rep)[0]
+                        side_list.append(dict(payload, problem={"what": why + " (pairs lost)", "pair": [list(lost[0]), list(lost[1])],
+                                                                "expect": "missed", "compare": "base", "only_base": sorted(rep_base - rep)[:5]}))
+                    if rep - rep_base:
+                        extra = sorted(rep - rep_base)[0]
+                        prob.c11.append(dict(payload, problem={"what": why + " (pairs added)", "pair": [list(extra[0]), list(extra[1])],
+                                                              "expect": "spurious", "compare": "base", "only_" + cname: sorted(rep - rep_base)[:5]}))
     stats["seconds"] = round(time.time() - t0, 1)
     return stats, samples, extra_results
 
@@ -2039,9 +2392,14 @@ def corpus_program_eval(jobs, results, params, prob):
                 ok = True
                 if km["finding"] == "C10/repeated-external-callee":
                     ok = any(callee_without_state(g, consts, km["site"][0], km["site"][1], km["site"][2]) for g in graphs)
+                if km["finding"] == "C10/call-site-budget-per-entry":
+                    ok = any(call_site_budget_exhausted(c, params, km["site"][0], km["site"][1]) for c in res["cases"] if "out_of_fragment" not in c)
                 if km["finding"] == "C10/reaching-def-lost":
                     du = km["def_use"]
                     ok = any(def_use_edge_missing(g, consts, du["var"], du["file"], du["def_line"], du["file"], du["use_line"]) for g in graphs)
+                if km["finding"] == "C10/join-arg-state-lost":
+                    du = km["def_use"]
+                    ok = any(arg_value_not_passed(g, consts, du["var"], du["file"], du["def_line"], du["file"], du["use_line"]) for g in graphs)
                 if km["finding"] == "C10/source-state-on-other-context":
                     ok = any(source_state_on_other_context(g, consts, km["site"][0], km["site"][1]) for g in graphs)
                 if km["finding"] == "C10/returned-state-duplicated":
@@ -2131,6 +2489,13 @@ def program_problem_persists(payload, root):
     if "pair" not in pr:
         return True
     key = ((pr["pair"][0][0], pr["pair"][0][1]), (pr["pair"][1][0], pr["pair"][1][1]))
+    if pr.get("compare") == "base" and payload.get("base_groups"):
+        # the verdict is a DIFFERENCE between two configurations of the same program: the pair is reported under
+        # exactly one of them
+        rep_b, _ = run_program_payload(dict(payload, src_groups=payload["base_groups"][0], sink_groups=payload["base_groups"][1]), root)
+        if rep_b is None:
+            return False
+        return (key in rep) != (key in rep_b)
     if pr["expect"] == "missed":
         return key not in rep
     if pr["expect"] == "spurious":
@@ -2201,7 +2566,7 @@ def run_check(ctx, side):
         "find_sources/find_sinks/propagate_taint/get_sink_tag_by_rules/find_flows with a stub loader and through the Lean model; "
         f"(a,d) {packed_stats['programs']} generated Python programs (assignments, operators, calls/returns, fields, lists, dicts, closures, module variables, "
         "if/while, 1-2 files; call / method-call / parameter / field-read sources; call / method-call / field-write / record-write sinks) analysed by lian in "
-        f"packed in-process runs, every entry point's in-memory SFG re-evaluated under 8 rule configurations (base, all-java, no source, no sink, half java, unit_name-restricted sinks, line_num-restricted sources, any-language marker) ({packed_stats['graph_config_pairs']} graph x configuration pairs) "
+        f"packed in-process runs, every entry point's in-memory SFG re-evaluated under 11 rule configurations written as YAML and loaded by the REAL RuleManager (base incl. prefix/suffix decoy rules, plain, same-name duplicates appended / prepended, all-java, no source, no sink, half java, unit_name-restricted sinks, line_num-restricted sources, any-language marker) ({packed_stats['graph_config_pairs']} graph x configuration pairs) "
         "by the real functions and the model; ground truth = CPython identity tracking over all decision vectors (loops at most once), upper bound = flow- and "
         "context-insensitive dependence closure of the generator's AST. distinct_nontrivial = distinct synthetic (graph, rules) with >=1 real flow + programs with "
         ">=1 expected and >=1 reported flow")
@@ -2285,8 +2650,18 @@ def replay_check(rp, side):
         print(json.dumps({"real": canon_real(real), "problems": probs}, default=str)[:4000])
         return 1 if probs else 0
     if kind == "mono":
-        a = real_on_json(rp["graph"], rp["rules"])
-        b = real_on_json(rp["graph"], rp["rules_ext"])
+        if rp.get("yaml") and rp.get("yaml_ext"):
+            # the rule sets went through YAML files and the REAL RuleManager: reload them the same way
+            g, loader, nodes = graph_from_json(rp["graph"])
+            res = []
+            for y, rj in ((rp["yaml"], rp["rules"]), (rp["yaml_ext"], rp["rules_ext"])):
+                rm, _ = load_via_rule_manager(y[0], y[1], rules_from_json(rj))
+                res.append(real_engine(make_ta(loader, rm), g, nodes))
+            a, b = res
+            shutil.rmtree(scratch_dir(), ignore_errors=True)
+        else:
+            a = real_on_json(rp["graph"], rp["rules"])
+            b = real_on_json(rp["graph"], rp["rules_ext"])
         lost = sorted(flow_pairs(a) - flow_pairs(b))
         print(json.dumps({"pairs": sorted(flow_pairs(a)), "pairs_ext": sorted(flow_pairs(b)), "lost": lost}))
         return 1 if lost else 0
